@@ -59,6 +59,10 @@ MODES = [None, dict(typed=True, exc="TypeError"), dict(exc="KeyError"), dict(typ
          dict(exc="TypeError"), dict(typed=True, subtype=False, exc="ZeroDivisionError"), dict(exc="ValueError"),
          dict(typed=True), dict(exc="StopIteration"), dict(typed=True, subtype=False, exc="TypeError"),
          dict(exc="AttributeError")]
+# ... and every other exception class below Exception (IndexError, LookupError, RecursionError, OSError, user-defined
+# classes ...), alternately from a plain and from a typed predicate
+MODES += [dict(exc=n, typed=True) if i % 3 == 2 else dict(exc=n)
+          for i, n in enumerate(sorted(PL.EXC)) if n not in {m["exc"] for m in MODES if m and "exc" in m}]
 
 
 def gen_cases(ctx):
